@@ -712,6 +712,16 @@ fn publish_cases(rep: &mut Rep, idx: &mut u64) {
         }
         sets.push(v);
     }
+    // Payload Format Indicator 0 ("unspecified bytes") as well as 1: every second set that carries the indicator gets value 0
+    for (k, set) in sets.iter_mut().enumerate() {
+        if k % 2 == 1 {
+            for p in set.iter_mut() {
+                if p.id == 1 {
+                    *p = Prop::byte(1, 0);
+                }
+            }
+        }
+    }
     let sub_ids = [1u32, 127, 128, 16383, 16384, 2_097_151, 2_097_152, 268_435_455];
     let pkt_ids = [1u16, 255, 256, 65535];
     rep.note(&format!("PUBLISH: {} property sets x orders x QoS/DUP/retain flags x packet identifiers {{1,255,256,65535}} x subscription identifiers at every variable-byte-integer step, topics of boundary lengths, payload sizes 0..2100 (every size) and around 16 KiB / 2 MiB", sets.len()));
@@ -829,7 +839,14 @@ fn publish_cases(rep: &mut Rep, idx: &mut u64) {
             let topic = if k % 5 == 0 { ss[(k / 5) % ss.len()].clone() } else { "x/y".to_string() };
             let topic = if topic.is_empty() && rc::find(&props, 35).is_none() { "x".to_string() } else { topic };
             rep.distinct(&("publish", k, oi));
-            one_case(rep, &id, n, props, topic, format!("payload-{k}").into_bytes(), flags);
+            // the payload is text (with multi-byte characters) only where the packet says so (Payload Format Indicator 1);
+            // otherwise - indicator absent or 0 - it is arbitrary bytes that are not valid UTF-8
+            let mut payload = format!("payload-{k}-\u{e9}\u{4e16}").into_bytes();
+            if get_byte(&props, 1) != Some(1) {
+                payload.extend_from_slice(&[0xff, 0xfe, 0x00, 0x80, 0xc3]);
+                rep.add("publishes_with_non_utf8_payload", 1);
+            }
+            one_case(rep, &id, n, props, topic, payload, flags);
         }
     }
     // payload sizes across the receive buffer steps and the remaining-length widths
